@@ -64,15 +64,9 @@ theorem C17_no_control (P : Prog) (c0 c : Cfg) (h0 : Started c0) (h : Reach P c0
     (hctl : ctl = '\r' ∨ ctl = '\x08' ∨ ctl = '\x1b')
     (hname : ¬ nameChar P ctl) (htext : ctl ≠ '\r' → ¬ textChar P ctl) : ctl ∉ c.A.out.flatten := by
   intro hm
-  rcases C17_alphabet P c0 c h0 h ctl hm with h1 | h1 | h1 | h1 | h1 | ⟨h1, h2⟩
-  · rcases hctl with rfl | rfl | rfl <;> revert h1 <;> decide
-  · rcases hctl with rfl | rfl | rfl <;> revert h1 <;> decide
-  · rcases hctl with rfl | rfl | rfl <;> revert h1 <;> decide
-  · rcases hctl with rfl | rfl | rfl <;> revert h1 <;> decide
+  rcases allowed_control hctl (C17_alphabet P c0 c h0 h ctl hm) with h1 | ⟨h1, h2⟩
   · exact hname h1
-  · refine htext ?_ h1
-    rintro rfl
-    revert h2; decide
+  · exact htext h1 h2
 
 /-! ### 3. the separator -/
 
@@ -90,22 +84,18 @@ theorem C17_separator (P : Prog) (c c' : Cfg) (ht : Trans P c c') (e : Entry) (h
     c'.A.out = c.A.out ++ (if (P.spec e.screen).noSeparator then [] else [spacer P.width]) :=
   (trans_show ht e he).2
 
-/-- Every draw begins that way: the step of the `drawScreen e` instruction (the only one that starts the
-`show` callback and with it the printing of the window) adds exactly the event `show e`; and no other
-transition adds a `show` event. -/
-theorem C17_draw_begins (P : Prog) (c c' : Cfg) (ht : Trans P c c') (e : Entry) :
-    Tr.show e ∈ newTr c c' ↔ c' = fin (step P c) ∧ ∃ rest, c.code = .drawScreen e :: rest := by
-  constructor
-  · intro he
-    refine ⟨?_, (trans_show ht e he).1⟩
-    rcases trans_cases ht with h | h
-    · exact h
-    · subst h
-      have := (dlv_tr c).newTr _ he
-      simp at this
-  · rintro ⟨rfl, rest, hc⟩
-    rw [stepEff_draw (step_eff P c) e rest hc]
-    simp
+/-- Only the instruction that begins a draw adds a `show` event: a transition that adds `show e` is the
+step of `drawScreen e` (the only instruction that starts the `show` callback and with it the printing of
+the window). -/
+theorem C17_only_draw_shows (P : Prog) (c c' : Cfg) (ht : Trans P c c') (e : Entry)
+    (he : Tr.show e ∈ newTr c c') : ∃ rest, c.code = .drawScreen e :: rest :=
+  (trans_show ht e he).1
+
+/-- And every draw begins that way: the step of `drawScreen e` never fails and adds exactly the event
+`show e` (so `C17_separator` applies to every draw). -/
+theorem C17_draw_begins (P : Prog) (c : Cfg) (e : Entry) (rest : List Instr)
+    (hc : c.code = .drawScreen e :: rest) : ∃ c', step P c = .ok c' ∧ newTr c c' = [.show e] :=
+  draw_step P c e rest hc
 
 /-! ### 4. the width -/
 
@@ -128,14 +118,9 @@ configured width, none containing a line break — each followed by a line break
 theorem C17_print_step (P : Prog) (c0 c c' : Cfg) (h0 : Started c0) (h : Reach P c0 c) (ls : List Str)
     (rest : List Instr) (hc : c.code = .printLines ls :: rest) (hs : step P c = .ok c') :
     c'.A.out = c.A.out ++ [ls.flatMap fun l => l ++ ['\n']] ∧
-    ∀ l ∈ ls, l.length ≤ P.width.toNat ∧ '\n' ∉ l := by
-  have he := step_eff P c
-  rw [hs] at he
-  unfold StepEff at he
-  rw [hc] at he
-  refine ⟨he.1, ?_⟩
-  obtain ⟨⟨scr, g, hg, hls⟩, _⟩ := C17_pending_lines P c0 c h0 h ls (by rw [hc]; simp)
-  exact fun l hl => ⟨windowLines_width P scr g hg l (hls l hl), windowLines_no_nl P scr g hg l (hls l hl)⟩
+    ∀ l ∈ ls, l.length ≤ P.width.toNat ∧ '\n' ∉ l :=
+  ⟨print_step P c c' ls rest hc hs,
+    windowLines_fit (C17_pending_lines P c0 c h0 h ls (by rw [hc]; simp)).1⟩
 
 /-- (c) Every prompt text, at every width: each of its lines has, ignoring trailing blanks, at most the
 configured width (the lines are those of the prompt rendered as text; the last one gets one blank). -/
@@ -144,14 +129,8 @@ theorem C17_width_prompt (P : Prog) (p : Prompt) : chunkLinesOK P.width.toNat (p
 
 /-- (d) The separator lines have exactly the configured width. -/
 theorem C17_width_separator (w : Int) :
-    ∀ l ∈ splitOn '\n' (spacer w), l = [] ∨ (l.length = w.toNat ∧ ∀ ch ∈ l, ch = '=') := by
-  intro l hl
-  rw [spacer_lines] at hl
-  simp only [List.mem_cons, List.not_mem_nil, or_false] at hl
-  rcases hl with rfl | rfl | rfl
-  · exact .inr ⟨by simp, fun ch h => List.eq_of_mem_replicate h⟩
-  · exact .inr ⟨by simp, fun ch h => List.eq_of_mem_replicate h⟩
-  · exact .inl rfl
+    ∀ l ∈ splitOn '\n' (spacer w), l = [] ∨ (l.length = w.toNat ∧ ∀ ch ∈ l, ch = '=') :=
+  spacer_lines_exact w
 
 /-- Every kind of normal chunk satisfies the width clause. -/
 theorem C17_width_chunk (P : Prog) (chunk : Str) (h : NormalChunk P chunk) : chunkLinesOK P.width.toNat chunk :=
